@@ -186,6 +186,23 @@ def h_text(ctx, plen):
     with _Patched(ctx, decode=lambda t: k):
         back = B.CBase58Data(s)
     ctx.check(ctx.and_(back.nVersion == v, len(back) == plen, back.to_bytes() == p), 'text: str(from_bytes(v,p)) parses back to (v,p)')
+    # a second object with the same payload and another version byte must not see the first one's text
+    v2 = ctx.int('v2', 0, 255)
+    obj2 = B.CBase58Data.from_bytes(p, v2)
+    cap2 = {}
+
+    def enc2(b):
+        cap2['b'] = b
+        return 'TEXT2'
+    with _Patched(ctx, encode=enc2):
+        s2 = ctx.to_str(obj2)
+    k2 = cap2.get('b') if ctx.symbolic else B.decode(s2)
+    if k2 is None:
+        # the text was produced without encoding anything (a memoised result): only legitimate for the same version
+        ctx.check(v2 == v, 'text: str() of a second object with the same payload encodes its own version')
+    else:
+        ctx.check(k2 == ctx.bytes_of([v2]) + p + ctx.dsha256(ctx.bytes_of([v2]) + p)[:4],
+                  'text: str() of a second object with the same payload encodes its own version')
     for bad in (-1, 256):
         try:
             B.CBase58Data.from_bytes(p, bad)
